@@ -47,6 +47,36 @@ CLAIMED = {
             "PUBREL is serialised from the step's identifier and release entries are re-armed for replay. Interleavings of "
             "several exchanges are covered through these per-entry invariants, not enumerated.",
             "DESIGN.md §4 C03"),
+    "C04": ("path-sensitive must-pass over the inbound handler arms + wiring + who-may-mutate on mir_built",
+            "Static analysis, structural clauses only: in the PUBLISH arm every feasible delivering path (QoS 1) / non-error "
+            "path (QoS 2) passes the PUBACK / PUBREC enqueue with the inbound identifier; a QoS 2 delivery implies the "
+            "identifier was just recorded, recording only when not already pending; every non-error PUBREL path queues a "
+            "PUBCOMP with the table-correct reason and forgets the identifier; acks are serialised off-arena into their own "
+            "queue; the reset clears pending identifiers; the delivered message is re-decoded from exactly the consumed prefix "
+            "of the untouched receive buffer with fields passed through. Decoder correctness for arbitrary bytes is C08/C09.",
+            "DESIGN.md §4 C04"),
+    "C05": ("wiring (expression reconstruction incl. closure captures) + dominance/must-pass on the handshake's mir_built",
+            "Static analysis, structural clauses only: clean_start = !session_present and the client id wiring of CONNECT; "
+            "session_present is set only by the handshake after reason code and all properties were accepted; the reset runs "
+            "exactly on the no-session edge, before anything else in the handshake can fail, clears outbound and inbound "
+            "in-flight state and bumps the generation; the ConnectEvent follows session_present; new identifiers are "
+            "allocated only after a successful drain. Broker behaviour is not modelled.",
+            "DESIGN.md §4 C05"),
+    "C06": ("who-may-write + value-shape matching + path-sensitive must-pass with correlated reason-code tests + "
+            "interprocedural dependence (fields touched by the callees of the stored value) on mir_built",
+            "Static analysis, structural clauses only: quota writers; the clamped initial window and its dependence on the "
+            "publishes still in flight at (re)connect; decrement tied to the successful enqueue and await-free; the gate "
+            "dominates encoding; increments have the shape min(q+1,max), occur only in the PUBACK / PUBCOMP / failing-PUBREC "
+            "arms, only after the matching removal, and on every such path. The counting invariant over histories follows "
+            "from these per-operation facts and is not itself computed.",
+            "DESIGN.md §4 C06"),
+    "C07": ("type-level fact (NonZeroU16) + wiring of every identifier sink to the allocator + must-pass over the "
+            "allocator's lookups on mir_built",
+            "Static analysis, structural clauses only: identifiers are non-zero by type; every identifier-bearing header, "
+            "enqueue and handle takes the allocator's result of the same operation; the allocator returns an identifier "
+            "only after looking that very value up in the retained and release lists and finding it absent. With the last "
+            "clause the clause set is the property (for the in-flight sets the crate keeps).",
+            "DESIGN.md §4 C07"),
 }
 
 NOT_APPLICABLE = {
